@@ -9,17 +9,25 @@ INVS = ["C01_NoInvention", "C01_NoLoss", "C01_Converged", "C01_MergeOfAll", "C02
 FIX_S12 = True
 
 
+TRACE_INVS = None
+
+
 def trace_cfg(n, k, invs=None):
-    path = os.path.join(vlib.scratch(), "trace_%d_%d.cfg" % (n, k))
+    invs = invs or TRACE_INVS
+    path = os.path.join(vlib.scratch(), "trace_%d_%d_%d.cfg" % (n, k, len(invs or INVS)))
     with open(path, "w") as f:
         f.write("SPECIFICATION TraceSpec\nCONSTANTS\n N = %d\n K = %d\n MaxTx = 3\n MaxKeysPerTx = 3\n MaxBatch = 3\n FixS12 = %s\n" % (n, k, "TRUE" if FIX_S12 else "FALSE"))
         f.write("INVARIANTS " + " ".join(invs or INVS) + "\nPOSTCONDITION TraceAccepted\n")
     return path
 
 
+PROBE_SWEEPS = 0
+
+
 def record_walk(seed, n, k, steps, restart):
     out = os.path.join(vlib.scratch(), "walk.%d.%d.%d.%d.ndjson" % (seed, n, k, 1 if restart else 0))
-    p = vlib.run_vh(["sim-walk", str(seed), str(n), str(k), str(steps), "1" if restart else "0", out], timeout=600)
+    p = vlib.run_vh(["sim-walk", str(seed), str(n), str(k), str(steps), "1" if restart else "0", out], timeout=600,
+                    env_extra={"VH_PROBE_SWEEPS": str(PROBE_SWEEPS)})
     if p.returncode != 0:
         return None, p.stderr[-3000:]
     return out, None
@@ -153,7 +161,7 @@ def oracles(events, upto):
                 if sorted(map(tuple, b["gapRows"])) != sorted(map(tuple, b["needed"])):
                     fails.append(("C02", "gap rows differ from the in-memory needed set at node %d (event %d)" % (n, ev["i"])))
             last_post[n] = post
-        if op == "serve":
+        if op in ("serve", "probe"):
             srv = ev["post"]
             bk = {b["a"]: b for b in srv["book"]}
             a = ev["op"]["need"]["a"]
@@ -166,6 +174,13 @@ def oracles(events, upto):
                         if any(c["site"] == a and c["dbv"] == v for c in srv["cells"]):
                             fails.append(("C05", "server %d declared version (%d,%d) empty although it has live changes (event %d)" % (n, a, v, ev["i"])))
                 if m["k"] == "full":
+                    if a in bk and not any(c["site"] == a and c["dbv"] == m["v"] for c in srv["cells"]):
+                        rowseqs = set()
+                        for r in bk[a]["seqRows"]:
+                            if r[0] == m["v"]:
+                                rowseqs |= set(range(r[1], r[2] + 1))
+                        if not set(range(m["lo"], m["hi"] + 1)) <= rowseqs:
+                            fails.append(("C05", "server %d answered the partially buffered version (%d,%d) with range %d..=%d, more than the buffered ranges %s (event %d)" % (n, a, m["v"], m["lo"], m["hi"], sorted(rowseqs), ev["i"])))
                     for c in m["chs"]:
                         if not (m["lo"] <= c["seq"] <= m["hi"]):
                             fails.append(("C05", "server sent a change outside its changeset's range (event %d)" % ev["i"]))
